@@ -191,7 +191,7 @@ def numberLoop : List Char → Str → Nat → Bool → Bool → Token × List C
           else numberLoop rest s digits decimal true
         else if isDigit pk then numberLoop rest s digits decimal exp
         else if !exp && !decimal && pk = '.' then numberLoop rest s digits decimal exp
-        else if (!exp && pk = 'E') || pk = 'e' || pk = 'D' || pk = 'd' then
+        else if !exp && (pk = 'E' || pk = 'e' || pk = 'D' || pk = 'd') then
           numberLoop rest s digits decimal exp
         else if pk = '!' || pk = '#' || pk = '%' then numberLoop rest s digits decimal exp
         else (numberFinish s digits decimal exp, rest)
@@ -301,13 +301,19 @@ def rawTokens (cs : List Char) : List Token := lexLoop (cs.length + 1) cs false
 
 /-! ### the post-passes -/
 
-/-- `trim_end` -/
+/-- `trim_end`: a trailing blank run is dropped; trailing white space of a final `Unknown` is
+    trimmed, and if nothing is left the token goes away (together with a blank run before it) -/
 def trimEnd (ts : List Token) : List Token :=
   let ts := match ts.getLast? with
     | some (.whitespace _) => ts.dropLast
     | _ => ts
   match ts.getLast? with
-  | some (.unknown s) => ts.dropLast ++ [.unknown (trimEndStr s)]
+  | some (.unknown s) =>
+    if (trimEndStr s).isEmpty then
+      match ts.dropLast.getLast? with
+      | some (.whitespace _) => ts.dropLast.dropLast
+      | _ => ts.dropLast
+    else ts.dropLast ++ [.unknown (trimEndStr s)]
   | _ => ts
 
 /-- what one window of `collapse_triples` pushes (the four `if let` blocks are mutually exclusive) -/
